@@ -223,6 +223,8 @@ fn pair_programs() -> Vec<String> {
         "local lib = {}\nfunction lib.double(x) return x * 2 end\nfunction lib:twice(x)\n\treturn self.double(self.double(x))\nend\nlocal function helper(...) return select('#', ...) end\nfor i = 1, 3 do\n\tif i == 2 then break end\n\tlib:twice(i)\nend\nwhile false do end\nrepeat local done = true until done\nprint 'text' print { 1, 2 }\ndebug.profilebegin('x') debug.profileend()\nreturn lib\n".to_string(),
         // a shebang line
         "#!/usr/bin/env lua\nlocal a = 1\nlocal b = 2\nprint(a + b)\n".to_string(),
+        // many temporaries of one kind in one scope (generated names must keep advancing)
+        "local Class = {}\nfunction Class:bump()\n\tself.counters.hits += 1\n\tself.counters.misses += 1\n\tself.counters.total += 1\n\tself.counters.extra //= 2\n\tself.counters.name ..= `x{self.counters.hits}`\n\tfor i = 1, 3 do\n\t\tif i == 2 then continue end\n\t\tfor j = 1, 2 do\n\t\t\tif j == i then continue end\n\t\t\tself.counters[i][j] += 1\n\t\tend\n\tend\n\treturn self\nend\nreturn Class\n".to_string(),
         // Luau constructs
         "--!strict\ntype Point = { x: number, y: number }\nexport type Id = string | number\nlocal p: Point = { x = 0b11, y = 1_000 }\nlocal n = p.x // 2\nn += 1\nlocal s = `value {n} {p.y}`\nlocal v = if n > 1 then 'big' else 'small'\nfor _, k in { 1, 2 } do\n\tif k == 1 then continue end\n\tprint(k :: number, s, v)\nend\n@native local function f<T>(x: T): T return x end\nconst LIMIT = 10\nreturn f(LIMIT)\n".to_string(),
     ]
@@ -444,7 +446,9 @@ fn run(ctx: &RunCtx) {
         let r = cfg::ALL_RULES[(i / (modules.len() as u64 * 12)) as usize];
         let v = cfg::valid_variants(r);
         let rule = cfg::with_rule(r, &v[(m + g) % v.len()]);
-        let config_text = format!("{{ rules: [{}], generator: {}, bundle: {{ require_mode: \"{}\" }} }}", rule, generators[g], if luau { "luau" } else { "path" });
+        // exclude patterns, among them ones the glob library refuses (dropped with a warning)
+        let excludes = ["", ", excludes: [\"@lune/**\"]", ", excludes: [\"**.spec.lua\", \"vendor/**/*.{lua\"]", ", excludes: [\"a//b\", \"@lune/**.luau\"]"][((i / 7) % 4) as usize];
+        let config_text = format!("{{ rules: [{}], generator: {}, bundle: {{ require_mode: \"{}\"{} }} }}", rule, generators[g], if luau { "luau" } else { "path" }, excludes);
         let mut entry = String::from("local m = require(\"./m\")\nlocal d = require(\"./data.json\")\nprint(m, d);\n");
         if long_entry {
             for k in 0..120 {
